@@ -244,6 +244,19 @@ def model_spa_class():
             self.echo = True
             self.silent_verbs: set = set()
             self._peer = None
+            # The spa model is a peer, not the system under test: its own copy of the block is kept with the library's structure class,
+            # whose update first swaps the block and then notifies the items.  If that notification raises (a decoding defect in the tree
+            # under test), the model's block has already been updated; swallow it here so that the *client's* handling of the same bytes
+            # is what gets judged, not the harness.
+            self.model_side_errors = 0
+            _orig_replace = self.structure.replace_status_block_segment
+
+            def _safe_replace(offset, segment, _orig=_orig_replace):
+                try:
+                    return _orig(offset, segment)
+                except Exception:
+                    self.model_side_errors += 1
+            self.structure.replace_status_block_segment = _safe_replace
             self._setwc = SetWcHandler(on_handled=self._on_setwc)
             self._socket.add_receive_handler(self._setwc)
             for h in self._socket._receive_handlers:
